@@ -24,6 +24,7 @@ class Session:
         # a session = freshly started processes: netqasm's process-global shared-memory registry starts empty
         from netqasm.sdk.shared_memory import SharedMemoryManager
         SharedMemoryManager.reset_memories()
+        env.clock.stopped = False
         names = ["N%d" % i for i in range(len(caps))]
         if pb:
             import net_pb
@@ -37,6 +38,10 @@ class Session:
         self.records = []        # per message: dict
         self.problems = []       # oracle verdicts
         self.dead = False
+
+    def counts(self):
+        """per node: (held qubits, simulated qubits, registers) -- what C11 says must return to baseline"""
+        return [(len(n.virtQubits), len(n.simQubits), len(n.registers)) for n in self.net.nodes]
 
     # ---- driving --------------------------------------------------------------------------------------------------
     def advance(self, done, limit=400):
@@ -82,6 +87,7 @@ class Session:
         tap0 = len(env.tap)
         Q.script_coins(env, coins, tap0)
         before = N.dump(net)
+        counts_before = self.counts()
         mid, replies, escaped, finished = Q.send(env, host, wire, self.advance)
         if escaped:
             # production: log_error -> ErrorMessage, then reactor.stop() 0.1 s later
@@ -96,7 +102,8 @@ class Session:
             1 if impl and impl[-1] == ("done", mid) else 2
         rec = {"msg": msg, "coins": list(coins), "impl_replies": impl, "ref_replies": ref_replies, "qinstrs": qinstrs,
                "cerr": cerr, "fin": fin, "calls": calls, "dump": after, "host": hd, "finished": finished,
-               "stopped": bool(getattr(env.clock, "stopped", False)), "before": before}
+               "stopped": bool(getattr(env.clock, "stopped", False)), "before": before,
+               "counts_before": counts_before, "counts_after": self.counts()}
         self.records.append(rec)
         self.judge(rec)
         if fin == 2 or self.ref.dead or self.problems:
